@@ -552,12 +552,12 @@ impl ContinuityStore {
                                 });
                             }
                         } else if tail.complete {
-                            return Err(format!(
-                                "continuity message not found: {anchor_message_id}"
-                            ));
+                            // The messages+runs sidecar is a cache: if it does not know the
+                            // anchor, let the window / truth paths below decide.
+                            break;
                         }
                     } else if tail.complete {
-                        return Err("continuity sidecar is empty".to_string());
+                        break;
                     }
                 }
                 Ok(None) => break,
@@ -1628,6 +1628,9 @@ impl ContinuityStore {
                 Err(_) => break,
             }
 
+            if tail_bytes >= MAX_TAIL_BYTES {
+                break;
+            }
             tail_bytes = (tail_bytes * 2).min(MAX_TAIL_BYTES);
         }
 
@@ -1800,6 +1803,7 @@ impl ContinuityStore {
 
         let mut tail_bytes = INITIAL_TAIL_BYTES;
         let mut scanned_sidecar = false;
+        let mut tail_exhaustive = false;
         while tail_bytes <= MAX_TAIL_BYTES {
             match self
                 .stream_cache
@@ -1855,6 +1859,7 @@ impl ContinuityStore {
                     }
 
                     if tail.complete || by_key.len() >= MAX_KEYS {
+                        tail_exhaustive = true;
                         break;
                     }
                 }
@@ -1862,10 +1867,17 @@ impl ContinuityStore {
                 Err(_) => break,
             }
 
+            if tail_bytes >= MAX_TAIL_BYTES {
+                break;
+            }
             tail_bytes = (tail_bytes * 2).min(MAX_TAIL_BYTES);
         }
 
-        if !scanned_sidecar {
+        // A bounded tail that neither reached the start of the thread nor filled the key table
+        // may miss older cursors: answer from the truth log instead.
+        if !scanned_sidecar || !tail_exhaustive {
+            active = None;
+            by_key.clear();
             let events = self
                 .replay_events(thread_id)
                 .map_err(|err| format!("continuity replay failed: {err}"))?;
@@ -2013,6 +2025,9 @@ impl ContinuityStore {
                 Ok(None) => break,
                 Err(_) => break,
             }
+            if tail_bytes >= MAX_TAIL_BYTES {
+                break;
+            }
             tail_bytes = (tail_bytes * 2).min(MAX_TAIL_BYTES);
         }
 
@@ -2104,6 +2119,8 @@ impl ContinuityStore {
             {
                 Ok(Some(tail)) => {
                     scanned_sidecar = true;
+                    // Each (larger) tail window is scanned from the end again.
+                    decisions.clear();
                     for event in tail.events.iter().rev() {
                         let EventKind::ContinuityContextSelectionDecided {
                             run_session_id,
@@ -2182,6 +2199,9 @@ impl ContinuityStore {
                 Err(_) => break,
             }
 
+            if tail_bytes >= MAX_TAIL_BYTES {
+                break;
+            }
             tail_bytes = (tail_bytes * 2).min(MAX_TAIL_BYTES);
         }
 
